@@ -25,6 +25,8 @@ type constTable struct {
 	stores  map[string]ssa.Value // field stores of the composite literals the values were built from
 	valType types.Type
 	isArray bool
+	isSlice bool  // a slice variable whose backing array only the initialiser writes (indexed like an array table)
+	length  int64 // of a slice table
 }
 
 func (t *constTable) lookup(k constant.Value) (ssa.Value, bool) {
@@ -95,7 +97,7 @@ func buildConstTables(pkg *ssa.Package) map[*ssa.Global]*constTable {
 		if g, ok := m.(*ssa.Global); ok {
 			if pt, ok := g.Type().(*types.Pointer); ok {
 				switch pt.Elem().Underlying().(type) {
-				case *types.Map, *types.Array:
+				case *types.Map, *types.Array, *types.Slice:
 					cands[g] = true
 				}
 			}
@@ -147,8 +149,30 @@ func buildConstTables(pkg *ssa.Package) map[*ssa.Global]*constTable {
 									}
 								case *ssa.Range, *ssa.DebugRef:
 								case *ssa.Call:
-									if bi, ok := r.Call.Value.(*ssa.Builtin); !ok || bi.Name() != "len" {
+									if bi, ok := r.Call.Value.(*ssa.Builtin); ok && bi.Name() == "len" {
+										continue
+									}
+									// the standard library's searches only read the table
+									if pkgN, nameN := staticCalleeName(r); stdReadOnly(pkgN, nameN) && r.Call.Value != ssa.Value(x) {
+										continue
+									}
+									delete(cands, g)
+								case *ssa.IndexAddr:
+									// an element of a slice table: only ever loaded
+									if r.X != ssa.Value(x) {
 										delete(cands, g)
+										continue
+									}
+									for _, ref2 := range *r.Referrers() {
+										switch r2 := ref2.(type) {
+										case *ssa.UnOp:
+											if r2.Op != token.MUL {
+												delete(cands, g)
+											}
+										case *ssa.DebugRef:
+										default:
+											delete(cands, g)
+										}
 									}
 								default:
 									delete(cands, g)
@@ -287,6 +311,68 @@ func buildConstTables(pkg *ssa.Package) map[*ssa.Global]*constTable {
 				mk = best.resolve(st.Val)
 			}
 		}
+		if st, isSliceT := g.Type().(*types.Pointer).Elem().Underlying().(*types.Slice); isSliceT {
+			// var t = []T{c0, c1, ...}: the whole of a fresh array, whose elements the literal stores
+			sl, isSl := mk.(*ssa.Slice)
+			if !isSl || sl.Low != nil || sl.High != nil || sl.Max != nil {
+				continue
+			}
+			al, isAl := sl.X.(*ssa.Alloc)
+			if !isAl {
+				continue
+			}
+			at, isArr := al.Type().(*types.Pointer).Elem().Underlying().(*types.Array)
+			if !isArr {
+				continue
+			}
+			// the array is reachable through the variable only
+			private := true
+			for _, ref := range *al.Referrers() {
+				switch r := ref.(type) {
+				case *ssa.IndexAddr:
+					for _, ref2 := range *r.Referrers() {
+						if st2, isSt := ref2.(*ssa.Store); !isSt || st2.Addr != ssa.Value(r) {
+							if _, isDbg := ref2.(*ssa.DebugRef); !isDbg {
+								private = false
+							}
+						}
+					}
+				case *ssa.Slice:
+					if r != sl {
+						private = false
+					}
+				case *ssa.DebugRef:
+				default:
+					private = false
+				}
+			}
+			if !private {
+				continue
+			}
+			t := &constTable{global: g, stores: best.stores, valType: st.Elem(), isArray: true, isSlice: true, length: at.Len()}
+			ok := true
+			for _, ev := range best.events {
+				est, isSt := ev.(*ssa.Store)
+				if !isSt {
+					continue
+				}
+				ia, isIA := est.Addr.(*ssa.IndexAddr)
+				if !isIA || ia.X != ssa.Value(al) {
+					continue
+				}
+				k, isC := best.constOf(ia.Index)
+				if !isC {
+					ok = false
+					break
+				}
+				t.keys = append(t.keys, k)
+				t.vals = append(t.vals, best.resolve(est.Val))
+			}
+			if ok {
+				out[g] = t
+			}
+			continue
+		}
 		if _, ok := mk.(*ssa.MakeMap); !ok {
 			continue
 		}
@@ -374,10 +460,14 @@ func (p *pwPath) tableElem(ld *ssa.UnOp) (ssa.Value, bool) {
 		field = fa.Field
 	}
 	g, ok := ia.X.(*ssa.Global)
-	if !ok {
-		return nil, false
+	var t *constTable
+	if ok {
+		if t = constTablesOf(g.Pkg)[g]; t != nil && t.isSlice {
+			t = nil
+		}
+	} else {
+		t = p.sliceTableOf(ia.X)
 	}
-	t := constTablesOf(g.Pkg)[g]
 	if t == nil || !t.isArray {
 		return nil, false
 	}
@@ -414,4 +504,62 @@ func (p *pwPath) tableElem(ld *ssa.UnOp) (ssa.Value, bool) {
 		return v, true
 	}
 	return zeroConst(t.valType), true
+}
+
+// sliceTableOf: v is the value of a slice variable that is a constant table.
+func (p *pwPath) sliceTableOf(v ssa.Value) *constTable {
+	ld, isLd := p.resolve(v).(*ssa.UnOp)
+	if !isLd || ld.Op != token.MUL {
+		return nil
+	}
+	g, isG := ld.X.(*ssa.Global)
+	if !isG {
+		return nil
+	}
+	t := constTablesOf(g.Pkg)[g]
+	if t == nil || !t.isSlice {
+		return nil
+	}
+	return t
+}
+
+// tableSearch: slices.Contains / slices.Index of a constant table of basic values for a known value.
+func (p *pwPath) tableSearch(c *ssa.Call, d int) (constant.Value, bool) {
+	pkg, name := staticCalleeName(c)
+	if pkg != "slices" || (name != "Contains" && name != "Index") || len(c.Call.Args) != 2 {
+		return nil, false
+	}
+	t := p.sliceTableOf(c.Call.Args[0])
+	if t == nil {
+		return nil, false
+	}
+	want, ok := p.constOfD(c.Call.Args[1], d+1)
+	if !ok {
+		return nil, false
+	}
+	at := int64(-1)
+	for i := int64(0); i < t.length && at < 0; i++ {
+		var ev constant.Value
+		if v, found := t.lookup(constant.MakeInt64(i)); found {
+			cv, isC := v.(*ssa.Const)
+			if !isC || cv.Value == nil {
+				return nil, false
+			}
+			ev = cv.Value
+		} else if z, isC := zeroConst(t.valType).(*ssa.Const); isC && z.Value != nil {
+			ev = z.Value
+		} else {
+			return nil, false
+		}
+		if ev.Kind() != want.Kind() {
+			return nil, false
+		}
+		if constant.Compare(ev, token.EQL, want) {
+			at = i
+		}
+	}
+	if name == "Contains" {
+		return constant.MakeBool(at >= 0), true
+	}
+	return constant.MakeInt64(at), true
 }
